@@ -50,7 +50,7 @@ def run(chk):
     chk.trusted += ['spec/idt.py (vector classes and 64-bit interrupt stack frame typed in from Intel SDM 3A ch. 6 / AMD APM 2 ch. 8)',
                     "rustc's x86-interrupt ABI lowering (frame parameter = hardware-pushed frame, error code parameter = pushed error code, return = iretq)",
                     'core::ops::RangeBounds::contains (std semantics of the caller\'s range)', 'rustc layout computation',
-                    'C12 for Entry::set_handler_fn (stores the handler address and sets the present bit of that entry only)']
+                    'models of bit_field']
     chk.assumptions += ['the general handler is an arbitrary safe fn(InterruptStackFrame, u8, Option<u64>); its body is not analysed',
                         'what is decided is the structural part listed in the module docstring; the CPU-side delivery itself is the trusted ABI']
     facts = chk.guard('witness', 'extraction', lambda: get_witness_facts())
@@ -72,6 +72,10 @@ def run(chk):
         if r:
             n_seg += r[0]
             n_stub += r[1]
+    # what the installed call does to the entry it is given (shared with C12): handler address in the three pointer fields, present
+    # interrupt gate with default options, current CS
+    from .c12 import entry as c12_entry
+    chk.guard('entry', 'Entry::set_handler_fn / set_handler_addr', lambda: c12_entry(chk))
     chk.floor('installer segments analysed', n_seg, 256 * len(WITNESS))
     chk.floor('stubs analysed', n_stub, (256 - len(SI.RESERVED)) * len(WITNESS))
     chk.explanation = __doc__.split('\n\n')[2]
